@@ -274,6 +274,11 @@ impl AgentRun {
                     let n: usize = match p[4] { "5" => 1, "6" => 8, "7" => 12, _ => 18 };
                     let mut b = Message::builder(MessageType::from_class_method(cls, meth), tid.into());
                     b.add_attribute(&sw).unwrap();
+                    if code.is_some() {
+                        b.add_attribute(&ec).unwrap();
+                        b.add_attribute(&realm).unwrap();
+                        b.add_attribute(&nonce).unwrap();
+                    }
                     bytes = b.build();
                     let off = bytes.len();
                     let l = (off + 4 + n - 20) as u16;
